@@ -164,7 +164,11 @@ pub fn gen_session(seed: u64, run: u64, thorough: bool) -> Session {
                         if crate::lsp::has_lone_cr(&t) { t.replace('\r', "") } else { t }
                     };
                     models.insert(uri.clone(), DocModel { text: text.clone() });
-                    ops.push(PlannedOp::new(Op::Close { uri: uri.clone() }));
+                    // (one time in four the editor announces the document again without having
+                    // closed it - what some do after a crash recovery)
+                    if !rng.chance(1, 4) {
+                        ops.push(PlannedOp::new(Op::Close { uri: uri.clone() }));
+                    }
                     ops.push(PlannedOp::new(Op::Open { uri: uri.clone(), text }));
                     est_tasks += 1;
                 }
